@@ -164,6 +164,11 @@ func scenario(param string) vsched.Scenario {
 				if sp.kind == "sendErr" {
 					c.Send(target, []byte("p2"))
 				}
+				if sp.kind == "reject" {
+					// more datagrams of the same session arrive while the rejected session is being torn down
+					c.Send(target, []byte("p2"))
+					c.Send(target, []byte("p3"))
+				}
 			case "port0":
 				// an established session, then a datagram whose destination the kernel rejects every time
 				// (port 0: sendmsg fails with EINVAL), then ordinary traffic again
